@@ -65,6 +65,27 @@ type vSession struct {
 	mu       sync.Mutex
 	newCount map[restic.ID]int // how often SaveBlob returned known=false
 	res      *kit.Result
+	// per-session records for Fn_StoredOnce.tla (C16): header entries of the packs uploaded so far
+	once    *kit.NDJSON
+	seed    int64
+	oldToks []string
+	opsSeen int
+}
+
+// packToks returns the header entries (blob tokens, with multiplicity, in upload order) of the packs saved by
+// the operations from index `from` on.
+func (s *vSession) packToks(from int) []string {
+	toks := []string{}
+	for _, op := range s.store.Ops()[from:] {
+		if op.Kind == "Save" && op.OK && op.H.Type == backend.PackFile {
+			if bl, _, err := pack.List(s.repo.Key(), bytesReaderAt(op.Data), int64(len(op.Data))); err == nil {
+				for _, b := range bl {
+					toks = append(toks, s.proj.Tok("b", b.ID.String()))
+				}
+			}
+		}
+	}
+	return toks
 }
 
 func (s *vSession) mark(e kit.Ev) {
@@ -72,36 +93,47 @@ func (s *vSession) mark(e kit.Ev) {
 	s.store.Mark("p1", string(b))
 }
 
-// run executes one upload session: lists[i] is saved by goroutine i in order.
+// run executes one upload session: lists[i] is saved by goroutine i in order (barrier: in rounds, every
+// goroutine saves its round-th blob, all goroutines of a round start together and are awaited).
 func (s *vSession) run(t testing.TB, name string, lists [][]vBlob, barrier bool) (accepted map[restic.ID]bool, err error) {
+	if !barrier {
+		return s.runPhases(t, name, [][][]vBlob{lists})
+	}
+	maxLen := 0
+	for _, l := range lists {
+		if len(l) > maxLen {
+			maxLen = len(l)
+		}
+	}
+	phases := make([][][]vBlob, maxLen)
+	for round := range phases {
+		for _, l := range lists {
+			if round < len(l) {
+				phases[round] = append(phases[round], l[round:round+1])
+			}
+		}
+	}
+	return s.runPhases(t, name, phases)
+}
+
+// runPhases executes one upload session in phases: phases[k][i] is saved in order by goroutine i of phase k;
+// a phase begins when every goroutine of the previous phase has returned from its last SaveBlob (the blobs it
+// handed in may still sit in an open packer or in an upload).
+func (s *vSession) runPhases(t testing.TB, name string, phases [][][]vBlob) (accepted map[restic.ID]bool, err error) {
 	accepted = map[restic.ID]bool{}
+	s.oldToks = append(s.oldToks, s.packToks(s.opsSeen)...)
+	s.opsSeen = s.store.NumOps()
+	fresh := []string{}
 	s.mark(kit.Ev{"ev": "Cmd", "phase": "begin", "cmd": "session:" + name, "proc": "p1"})
 	ctx := context.Background()
 	err = s.repo.WithBlobUploader(ctx, func(ctx context.Context, up restic.BlobSaverWithAsync) error {
 		var wg sync.WaitGroup
 		var firstErr error
-		maxLen := 0
-		for _, l := range lists {
-			if len(l) > maxLen {
-				maxLen = len(l)
-			}
-		}
-		rounds := 1
-		if barrier {
-			rounds = maxLen
-		}
-		for round := 0; round < rounds; round++ {
+		for _, lists := range phases {
 			for gi := range lists {
 				wg.Add(1)
-				go func(gi int) {
+				go func(l []vBlob) {
 					defer wg.Done()
-					l := lists[gi]
-					if barrier {
-						if round >= len(l) {
-							return
-						}
-						l = l[round : round+1]
-					}
 					for _, b := range l {
 						_, known, _, err := up.SaveBlob(ctx, b.tpe, b.data, b.id, false)
 						s.mu.Lock()
@@ -113,11 +145,12 @@ func (s *vSession) run(t testing.TB, name string, lists [][]vBlob, barrier bool)
 							accepted[b.id] = true
 							if !known {
 								s.newCount[b.id]++
+								fresh = append(fresh, s.proj.Tok("b", b.id.String()))
 							}
 						}
 						s.mu.Unlock()
 					}
-				}(gi)
+				}(lists[gi])
 			}
 			wg.Wait()
 		}
@@ -133,6 +166,12 @@ func (s *vSession) run(t testing.TB, name string, lists [][]vBlob, barrier bool)
 		end["dups"] = false
 	}
 	s.mark(end)
+	if err == nil && s.once != nil {
+		stored := s.packToks(s.opsSeen)
+		s.opsSeen = s.store.NumOps()
+		s.once.Write(map[string]any{"scenario": s.seed, "session": name, "old": append([]string{}, s.oldToks...), "stored": stored, "accepted": toks, "fresh": fresh})
+		s.oldToks = append(s.oldToks, stored...)
+	}
 	return accepted, err
 }
 
@@ -145,10 +184,12 @@ func (s *vSession) trace() []kit.Ev {
 }
 
 func vRunC44(t *testing.T, forC16 bool) {
-	rule := "one case = one upload session (1..16 concurrent savers, blob size classes tiny/medium/large/at-least-pack-size, data and tree blobs, overlapping lists, optional lowered index-full threshold and delayed index uploads) through the real SaveBlob -> packer -> uploader -> index code; judged by RepoTrace.tla SessionComplete, NoDuplicateUpload, PackNotOverfilled, PackUnmixed and the write-ordering rules; distinct by (scenario seed, session)"
+	rule := "one case = one upload session (1..16 concurrent savers, blob size classes tiny/medium/large/at-least-pack-size, data and tree blobs, overlapping lists, blobs handed in again while they wait in an open packer and other packs of the session are uploaded, optional lowered index-full threshold and delayed index uploads) through the real SaveBlob -> packer -> uploader -> index code; judged by RepoTrace.tla SessionComplete, NoDuplicateUpload, PackNotOverfilled, PackUnmixed and the write-ordering rules; distinct by (scenario seed, session)"
 	res := kit.NewResult(rule)
 	tr := kit.NewNDJSON("trace.ndjson")
 	defer tr.Close()
+	once := kit.NewNDJSON("recs_once.ndjson")
+	defer once.Close()
 	nscen := kit.Pick(6, 60)
 	for si := 0; si < nscen; si++ {
 		seed := kit.Seed()*100000 + 4400 + int64(si)
@@ -177,7 +218,7 @@ func vRunC44(t *testing.T, forC16 bool) {
 				}
 			}
 		}
-		s := &vSession{store: store, repo: repo, proj: kit.NewProjector(repo.Key()), newCount: map[restic.ID]int{}, res: res}
+		s := &vSession{store: store, repo: repo, proj: kit.NewProjector(repo.Key()), newCount: map[restic.ID]int{}, res: res, once: once, seed: seed}
 		// blob pool
 		var pool []vBlob
 		npool := 12 + r.Intn(10)
@@ -240,6 +281,52 @@ func vRunC44(t *testing.T, forC16 bool) {
 			}
 			pool = append(pool, more...)
 		}
+		// session "openpack": blobs that wait in partly filled packers while other packs of the same session are
+		// completed, uploaded and indexed, and whose content is then handed in again (sequentially, from
+		// concurrent goroutines, and concurrently with the uploads): phase 1 saves several small fresh blobs,
+		// phase 2 more than Connections blobs of at least the pack size (each gets a pack of its own and is handed
+		// to an upload goroutine, so at least one upload has completed when the phase ends), phase 3 the small
+		// ones again
+		if ok {
+			var smalls []vBlob
+			for i, n := 0, 3+r.Intn(4); i < n; i++ {
+				smalls = append(smalls, vMakeBlob(r, []int{0, 0, 4, 4, 1, 5}[r.Intn(6)]))
+			}
+			split := func(l []vBlob, g int) [][]vBlob {
+				lists := make([][]vBlob, g)
+				for i, b := range l {
+					lists[i%g] = append(lists[i%g], b)
+				}
+				return lists
+			}
+			var bigs []vBlob
+			for i, n := 0, int(repo.Connections())+1+r.Intn(2); i < n; i++ {
+				bigs = append(bigs, vMakeBlob(r, 3))
+			}
+			p1 := split(smalls, 1+r.Intn(3))
+			p2 := split(bigs, 1+r.Intn(2))
+			if r.Intn(2) == 0 {
+				// some of the small blobs come again already while the big packs are being uploaded
+				p2 = append(p2, append([]vBlob{}, smalls[:1+r.Intn(len(smalls))]...))
+			}
+			var p3 [][]vBlob
+			for gi, g := 0, 1+r.Intn(6); gi < g; gi++ {
+				l := append([]vBlob{}, smalls...)
+				r.Shuffle(len(l), func(i, j int) { l[i], l[j] = l[j], l[i] })
+				p3 = append(p3, l)
+			}
+			phases := [][][]vBlob{p1, p2, p3}
+			if r.Intn(3) == 0 {
+				// a second window in the same session: further packs complete, the small blobs come once more
+				phases = append(phases, split([]vBlob{vMakeBlob(r, 3), vMakeBlob(r, 3)}, 1), p3[:1])
+			}
+			if _, err := s.runPhases(t, "openpack", phases); err != nil {
+				res.Problem("scenario %d: session openpack failed: %v", seed, err)
+				ok = false
+			}
+			res.Count("openpack_sessions", 1)
+			pool = append(pool, smalls...)
+		}
 		// session 4: a fresh process (index loaded from the repository) saves known blobs only
 		if ok {
 			repo2, err := New(store.Backend("p1"), Options{PackSize: MinPackSize})
@@ -291,7 +378,7 @@ func vRunC44(t *testing.T, forC16 bool) {
 			}
 		}
 		res.Case(fmt.Sprintf("%d", seed), ok)
-		res.Count("sessions", 4)
+		res.Count("sessions", 5)
 		res.Count("packs_uploaded", len(store.Names(backend.PackFile)))
 		res.Sample(map[string]any{"scenario": seed, "version": version, "connections": store.Conns, "index_full_after": idxFull, "delayed_index_uploads": delayIdx, "goroutines_mixed": g, "pool": npool})
 		tr.Write(kit.Ev{"ev": "Reset", "proc": "env", "history": seed, "packsize": int(MinPackSize)})
